@@ -63,6 +63,16 @@ class AbortB(BaseException):
     pass
 
 
+class AbortF(Exception):
+    """A falsy exception instance (an empty error collection)."""
+
+    def __bool__(self):
+        return False
+
+    def __len__(self):
+        return 0
+
+
 def _proc(scratch, do_deletes):
     with scratch.batch_commit(do_deletes=do_deletes):
         action = yield "open"
@@ -272,7 +282,7 @@ class World:
             st.probe("commit-with-deletes" if self.do_deletes else "commit-without-deletes")
             out = "committed"
         else:
-            exc = AbortB("abort") if how == "B" else AbortE("abort")
+            exc = AbortB("abort") if how == "B" else (AbortF() if how == "F" else AbortE("abort"))
             if how == "G":
                 # the coroutine holding the block open is abandoned (closed while suspended)
                 exc = GeneratorExit()
@@ -367,7 +377,7 @@ def generate(rng):
     for _ in range(rng.choice([0, 0, 1, 2])):
         prefix.append({"op": "open", "dd": int(rng.random() < 0.5)})
         prefix += gen_ops(rng, keys, vals, rng.randint(0, 6))
-        prefix.append({"op": "exit", "how": rng.choice(["normal", "normal", "E", "B", "G"])})
+        prefix.append({"op": "exit", "how": rng.choice(["normal", "normal", "E", "B", "G", "F"])})
         if rng.random() < 0.5:
             prefix += [c for c in gen_ops(rng, keys, vals, 2) if c["op"] in ("read", "contains", "other")]
     dd = int(rng.random() < 0.5)
@@ -399,6 +409,6 @@ def explore(rng, st):
     execute(variant(base, k, "normal"), st)
     nt = st.nontrivial
     for p in range(k + 1):
-        for how in ("E", "B", "G"):
+        for how in ("E", "B", "G", "F"):
             execute(variant(base, p, how), st)
     st.nontrivial = nt
